@@ -312,7 +312,7 @@ func features(c Case) []string {
 
 var spec = pbt.Spec[Case]{
 	ID: "C11",
-	Rule: "generated: (35%) arbitrary strings for totality - token soup, valid prefixes followed by soup, token-level mutations of valid statements, " +
+	Rule: "generated: (35%) arbitrary strings for totality - token soup, valid prefixes followed by soup, token-level mutations of valid statements, valid statements cut off in the middle (half of the time right after a back quote, quote, parenthesis, comma or =, optionally followed by one more opener), " +
 		"long runs of one fragment (up to 20000 repetitions), random bytes - and (65%) statements of the documented grammar built from an AST " +
 		"(direct / windowed-aggregate / MATCH_RECOGNIZE; select items with aliases, *, DISTINCT, FROM [AS] alias, JOIN..ON, WHERE token lists, GROUP BY columns + " +
 		"every window kind, TRIGGER WHEN, HAVING, WITH options, ORDER BY, LIMIT; identifiers/literals/aliases with embedded clause keywords, back-quoted reserved names, " +
